@@ -4,12 +4,15 @@ import (
 	"bytes"
 	"fmt"
 	"reflect"
+	"sort"
 
 	"0chain.net/chaincore/transaction"
 	"github.com/0chain/common/core/statecache"
 	"github.com/0chain/common/core/util"
 
 	"0chain.net/chaincore/chain"
+
+	"verifh/world"
 )
 
 // C07: (1) the hook's shadow read at every cache hit (obs.Shadow) — value served from the transaction/block/global cache must
@@ -164,5 +167,94 @@ func forkScenarioC07(h *Hist, mons []Monitor) {
 	h.EndBlock()
 	if r := h.Runs["C07"]; r != nil {
 		r.Count("directed_fork_scenarios", 1)
+	}
+}
+
+// partsScenarioC07 drives the real partitions library hard on one small list: fills it over several packed partitions, then
+// alternates transactions that update or remove items of packed partitions and fail afterwards (or do not save) with plain
+// reads; every cache hit of the following transactions is compared with the trie by the observer's shadow reads, and the outputs
+// of read-only calls are compared with a reference map of the committed content.
+func partsScenarioC07(h *Hist, mons []Monitor) {
+	r := h.R.Fork("c07-parts")
+	list := r.Intn(len(world.ProbePartSizes))
+	size := world.ProbePartSizes[list]
+	ref := map[string]string{} // committed content
+	from := h.W.Clients[0]
+	submit := func(in world.ProbePartsInput, mut string) *TxnObs {
+		in.List = list
+		c := &Call{Name: "probe.parts", Mut: mut, Spec: world.TxnSpec{From: from, To: world.ProbeAddress, Fee: Coin(1 + r.Intn(50)), Type: transaction.TxnTypeSmartContract, Func: "parts", Input: in}}
+		return h.Submit(c, mons)
+	}
+	ids := func() []string {
+		var out []string
+		for k := range ref {
+			out = append(out, k)
+		}
+		sort.Strings(out)
+		return out
+	}
+	n := 3*size + 1 + r.Intn(size)
+	for i := 0; i < n; i++ {
+		id, d := fmt.Sprintf("s%02d", i), fmt.Sprintf("v0-%d", i)
+		if o := submit(world.ProbePartsInput{Steps: []world.ProbePartStep{{Op: "add", ID: id, Data: d}}}, "scenario-fill"); o.Outcome == "success" {
+			ref[id] = d
+		}
+	}
+	for round := 0; round < 14; round++ {
+		cur := ids()
+		if len(cur) == 0 {
+			break
+		}
+		var steps []world.ProbePartStep
+		for k := 0; k < 1+r.Intn(3); k++ {
+			id := cur[r.Intn(len(cur))]
+			if r.Chance(0.6) {
+				steps = append(steps, world.ProbePartStep{Op: "update", ID: id, Data: fmt.Sprintf("dirty-%d-%d", round, k)})
+			} else {
+				steps = append(steps, world.ProbePartStep{Op: "remove", ID: id})
+			}
+		}
+		// (a successful call that does not Save is a misuse of the library - removals write their location index at once - and
+		// is not part of the scenario)
+		mode := []int{0, 1, 1, 3}[r.Intn(4)]
+		in := world.ProbePartsInput{Steps: steps, ThenFail: mode == 0 || mode == 1, SkipSave: mode == 1}
+		mut := []string{"scenario-fail-after-save", "scenario-fail-no-save", "", "scenario-commit"}[mode]
+		o := submit(in, mut)
+		if mode == 3 && o.Outcome == "success" {
+			// committed: replay on the reference (a removal moves items between partitions, the content set is what matters)
+			for _, st := range steps {
+				if _, ok := ref[st.ID]; !ok {
+					continue
+				}
+				if st.Op == "update" {
+					ref[st.ID] = st.Data
+				} else {
+					delete(ref, st.ID)
+				}
+			}
+		}
+		// read everything back through the cache in a fresh transaction and compare with the committed content
+		var gets []world.ProbePartStep
+		for _, id := range ids() {
+			gets = append(gets, world.ProbePartStep{Op: "get", ID: id})
+		}
+		gets = append(gets, world.ProbePartStep{Op: "size"})
+		ro := submit(world.ProbePartsInput{Steps: gets, SkipSave: true}, "scenario-read-back")
+		if ro.Outcome != "success" {
+			continue
+		}
+		want := "probe parts "
+		for _, id := range ids() {
+			want += id + "=" + ref[id] + ";"
+		}
+		want += fmt.Sprintf("n=%d;", len(ref))
+		h.C("C07", "partition_read_backs")
+		if rr := h.Runs["C07"]; rr != nil {
+			rr.Eval(1)
+			rr.Distinct("parts-read-back|" + mut)
+		}
+		if got := ro.Txn.TransactionOutput; got != want {
+			h.V("C07", "partition-content-after-"+mut, fmt.Sprintf("list of partition size %d: a read-only transaction after a %s transaction saw %q, committed content is %q", size, mut, trunc(got, 300), trunc(want, 300)), ro)
+		}
 	}
 }
